@@ -629,6 +629,7 @@ class Producer(Destination):
                 passive=self.declare["passive"],
                 durable=self.declare["durable"],
                 auto_delete=self.declare["auto-delete"],
+                internal=self.declare["internal"],
                 arguments=self.declare["arguments"],
             )
         # print("name = " + self.name)
@@ -999,6 +1000,7 @@ class Consumer(Destination):
                 passive=self.declare["passive"],
                 durable=self.declare["durable"],
                 auto_delete=self.declare["auto-delete"],
+                internal=self.declare["internal"],
                 arguments=self.declare["arguments"],
             )
         # Queue declare
